@@ -73,7 +73,24 @@ def run(input_text, opts, ext="pdb", extra_files=None, keep=False, read=(), out_
     d = os.path.join(tempfile.gettempdir(), f"vf_run_{os.getpid()}")
     shutil.rmtree(d, ignore_errors=True)
     os.makedirs(d)
-    inp = os.path.join(d, in_name or f"in.{ext}")
+    # how the files are named and addressed is part of the input: a quarter of the runs (chosen by a
+    # hash of the content, so a case always gets the same style) use relative paths, a dotted name in a
+    # sub-directory with a blank, or an upper-case extension
+    import hashlib
+
+    blob = input_text if isinstance(input_text, bytes) else input_text.encode("utf-8", "replace")
+    style = hashlib.sha1(blob).digest()[0] % 12 if (in_name is None and out_name == "out.pqr") else 0
+    rel_in = rel_out = None
+    if style == 8:
+        rel_in, rel_out = f"in.{ext}", "out.pqr"
+    elif style == 9:
+        os.makedirs(os.path.join(d, "sub dir"))
+        rel_in = os.path.join("sub dir", f"my.model.v2.{ext}")
+    elif style == 10:
+        rel_in = f"IN.{ext.upper()}"
+    elif style == 11:
+        rel_in, rel_out = os.path.join(".", f"in.{ext}"), os.path.join(".", "out.pqr")
+    inp = os.path.join(d, rel_in or in_name or f"in.{ext}")
     outp = os.path.join(d, out_name)
     mode = "wb" if isinstance(input_text, bytes) else "w"
     kw = {} if mode == "wb" else {"newline": ""}
@@ -85,7 +102,7 @@ def run(input_text, opts, ext="pdb", extra_files=None, keep=False, read=(), out_
     if prefill is not None:
         with open(outp, "w") as fh:
             fh.write(prefill)
-    args = [o.replace("@DIR@", d) for o in opts] + [inp, outp]
+    args = [o.replace("@DIR@", d) for o in opts] + [rel_in if style in (8, 11) else inp, rel_out or outp]
     col = _Collector()
     lg = logging.getLogger("pdb2pqr")
     lg.addHandler(col)
